@@ -517,7 +517,7 @@ structure SInv (c : Cfg) (B : Int) (s : St) : Prop where
 theorem mergeHit_spec (c : Cfg) (hbw : 0 ≤ c.binWidth) (s s' : St) (h : FHit)
     (inv : SInv c h.from_ s) (hm : mergeHit c s h = some s') :
     SInv c h.from_ s' ∧ Covers (s.active ++ s.done) (s'.active ++ s'.done) ∧
-    (selfCut c h = false → ∃ t ∈ s'.active ++ s'.done, Holds c t (-h.diagonal) h.to h.from_) := by
+    (dropped c h = false → ∃ t ∈ s'.active ++ s'.done, Holds c t (-h.diagonal) h.to h.from_) := by
   unfold mergeHit at hm
   split at hm
   · rename_i hc
@@ -537,7 +537,7 @@ theorem mergeAll_spec (c : Cfg) (hbw : 0 ≤ c.binWidth) :
     ∀ (hits : List FHit) (s s' : St) (B : Int), SInv c B s → (∀ h ∈ hits, B ≤ h.from_) →
       SortedByFrom hits → mergeAll c s hits = some s' →
       (∃ B', SInv c B' s') ∧ Covers (s.active ++ s.done) (s'.active ++ s'.done) ∧
-      ∀ h ∈ hits, selfCut c h = false → ∃ t ∈ s'.active ++ s'.done, Holds c t (-h.diagonal) h.to h.from_ := by
+      ∀ h ∈ hits, dropped c h = false → ∃ t ∈ s'.active ++ s'.done, Holds c t (-h.diagonal) h.to h.from_ := by
   intro hits
   induction hits with
   | nil =>
@@ -569,7 +569,7 @@ theorem mergeAll_spec (c : Cfg) (hbw : 0 ≤ c.binWidth) :
     is merged and be kept by `widen` and `absorb` -/
 theorem mergeAll_forall (c : Cfg) (P : Trap → Prop) (hab : ∀ x y, P x → P y → P (absorb x y)) :
     ∀ (hits : List FHit) (s s' : St),
-      (∀ h ∈ hits, selfCut c h = false → P (fresh c (-h.diagonal) h.to h.from_) ∧
+      (∀ h ∈ hits, dropped c h = false → P (fresh c (-h.diagonal) h.to h.from_) ∧
         ∀ t, P t → P (widen c (-h.diagonal) h.to t)) →
       (∀ t ∈ s.active, P t) → (∀ t ∈ s.done, P t) → mergeAll c s hits = some s' →
       (∀ t ∈ s'.active, P t) ∧ (∀ t ∈ s'.done, P t) := by
@@ -599,7 +599,7 @@ theorem mergeAll_forall (c : Cfg) (P : Trap → Prop) (hab : ∀ x y, P x → P 
 
 /-- inside the modelled domain `mergeAll` never answers `none` -/
 theorem mergeAll_total (c : Cfg) :
-    ∀ (hits : List FHit) (s : St), (∀ h ∈ hits, selfCut c h = true ∨ inDomain c h = true) →
+    ∀ (hits : List FHit) (s : St), (∀ h ∈ hits, dropped c h = true ∨ inDomain c h = true) →
       (∀ t ∈ s.active, t.right ≤ c.qlen + c.binWidth) → (∀ t ∈ s.done, t.right ≤ c.qlen + c.binWidth) →
       ∃ s', mergeAll c s hits = some s' := by
   intro hits
@@ -607,9 +607,9 @@ theorem mergeAll_total (c : Cfg) :
   | nil => intro s _ _ _; exact ⟨s, rfl⟩
   | cons h hs ih =>
     intro s hd ha hdn
-    have hs' : ∀ x ∈ hs, selfCut c x = true ∨ inDomain c x = true := fun x hx => hd x (List.mem_cons_of_mem _ hx)
+    have hs' : ∀ x ∈ hs, dropped c x = true ∨ inDomain c x = true := fun x hx => hd x (List.mem_cons_of_mem _ hx)
     unfold mergeAll
-    by_cases hc : selfCut c h = true
+    by_cases hc : dropped c h = true
     · have : mergeHit c s h = some s := by unfold mergeHit; rw [if_pos hc]
       rw [this]
       exact ih s hs' ha hdn
@@ -618,9 +618,9 @@ theorem mergeAll_total (c : Cfg) :
         · exact absurd e hc
         · exact e
       have hL : -h.diagonal ≤ c.qlen := by
-        unfold inDomain at hdom
-        simp only [Bool.and_eq_true, decide_eq_true_eq] at hdom
-        exact hdom.1
+        unfold dropped beyondQuery at hc
+        simp only [Bool.or_eq_true, decide_eq_true_eq, not_or] at hc
+        omega
       obtain ⟨s1, h1⟩ := walk_total c (-h.diagonal) h.to h.from_ hL s.active [] s.done ha
       have hm : mergeHit c s h = some s1 := by
         unfold mergeHit
